@@ -9,6 +9,10 @@ pub fn run(sh: &mut Shell, cl: &CommandLine, cmd: &Command,
     let tokens = cmd.tokens.clone();
     let mut cr = CommandResult::new();
 
+    // apply status changes that were noticed but not processed yet (as the
+    // `jobs` builtin does), so that we do not wait for a finished job.
+    jobc::try_wait_bg_jobs(sh, false, false);
+
     if sh.jobs.is_empty() {
         let info = "cicada: bg: no job found";
         print_stderr_with_capture(info, &mut cr, cl, cmd, capture);
